@@ -171,11 +171,11 @@ def r2_propagate(ctx):
 
 
 def r3_entry_invariant(ctx):
-    ctx.rule("C02.r3", "the checker starts each block from the analyzer's invariant at the ENTRY of the same block", floor=2)
+    ctx.rule("C02.r3", "the checker starts each block from the analyzer's invariant at the ENTRY of the same block, and re-seeds the shared "
+             "transformer for every property checker before it pushes the statements of the block through it", floor=4)
     for cls, getter in (("crab::checker::intra_checker", None), ("crab::checker::inter_checker", "get_pre")):
         fs = ctx.db.fns(CHK, pk=cls + "::run")
-        if cls.endswith("intra_checker"):
-            ctx.need(fs, cls + "::run")
+        ctx.need(fs, cls + "::run")
         for fn in fs:
             body = fn["body"]
             d = local_decls(body)
@@ -205,7 +205,21 @@ def r3_entry_invariant(ctx):
                          is_ref(obj(strip(lab))) and obj(strip(lab)).get("id") == l["v"]["id"]]
                 stmt_loops = [l for l in walk(body) if l.get("k") == "rangefor" and inner and is_ref(l.get("r")) and
                               strip(l["r"]).get("id") == inner[0]["v"]["id"] and any(is_call(x, name="accept") for x in walk(l.get("b")))]
-                if inner and stmt_loops:
+                # every loop between the block loop and the statement loop (the loop over the property checkers: they share ONE
+                # transformer, and each of them pushes the whole block through it) must re-seed the transformer, before the statements
+                between = [l for l in walk(body) if l.get("k") in ("rangefor", "for", "while") and inner and stmt_loops and l is not inner[0]
+                           and l is not stmt_loops[0] and any(x is l for x in walk(inner[0].get("b")))
+                           and any(x is stmt_loops[0] for x in walk(l.get("b")))]
+                stale = [l for l in between if not any(x is s for x in walk(l.get("b")))]
+                order = [x for x in walk(body) if x is s or (stmt_loops and x is stmt_loops[0])]
+                if inner and stmt_loops and stale:
+                    ctx.bad("the transformer is seeded with the block's entry invariant once per block, outside the loop over the property "
+                            "checkers that share it: the second checker starts from the state the first one left at the END of the block "
+                            "(every assertion of the block already assumed) and reports SAFE / UNREACHABLE for assertions the invariant "
+                            "does not entail", fn, s, sig="checker-seed-hoisted:%s" % cls)
+                elif inner and stmt_loops and order and order[0] is not s:
+                    ctx.bad("the transformer is seeded after the statements of the block were checked", fn, s, sig="checker-seed-late:%s" % cls)
+                elif inner and stmt_loops:
                     ctx.ok("%s: set_abs_value(analyzer[bb.label()]); for stmt in bb: stmt.accept(checker)" % cls.split("::")[-1], fn, s)
                 else:
                     ctx.bad("the block whose invariant seeds the checker is not the block whose statements are then checked", fn, s,
@@ -384,3 +398,66 @@ def r8_unmodelled_results(ctx):
 
 
 RULES += [r8_unmodelled_results]
+
+
+def _as_own(ctx, own_rid, other_rid, rule_fn):
+    """run a rule of another property and file its obligations under this property's rule id"""
+    rule_fn(ctx)
+    r = ctx.rules.pop(other_rid, None)
+    if r is not None:
+        tgt = ctx.rules[own_rid]
+        for k in ("ok", "bad", "undecided"):
+            tgt[k] += r[k]
+        tgt["samples"] += r["samples"]
+        for v in ctx.violations:
+            if v["rule"] == other_rid:
+                v["rule"] = own_rid
+                v["rule_desc"] = tgt["desc"]
+
+
+def r9_joined_context(ctx):
+    ctx.rule("C02.r9", "the top-down checker judges the assertions of a callee only on entries the callee was analysed for: a stored "
+             "calling context answers a new entry only if its summary was COMPUTED from a precondition that includes the entry "
+             "(same rule instance as C09.r10; a joined context describes the union of the joined entries, not their convex join)", floor=1)
+    _as_own(ctx, "C02.r9", "C09.r10", C09.r10_joined_reuse)
+
+
+RULES += [r9_joined_context]
+
+
+def r10_published_invariants(ctx):
+    ctx.rule("C02.r10", "the invariants the forward+backward analyzer publishes to the checker are REACHABILITY invariants (the forward "
+             "pass under the caller's assumptions, iteration 1): a forward pass refined with the backward preconditions describes only "
+             "the states that can still lead to an error, and `bottom` there means `safe`, not `unreachable`", floor=2)
+    fs = [f for f in ctx.db.fns(BWD, pk=FB + "::run") if len(f.get("params", [])) == 6]
+    if not ctx.need(fs, "intra_forward_backward_analyzer::run"):
+        return
+    for fn in fs:
+        body = fn["body"]
+        g = paths.guards(body)
+        cnt = [d for d in local_decls(body).values() if d.get("n") == "iters"]
+        stores = [n for n, ps in nodes_not_in_log(body, lambda x: is_call(x, name="store_results") and is_this(x.get("o")))]
+        if not stores:
+            ctx.bad("run() never publishes the forward invariants", fn, body, sig="fb-no-store")
+            continue
+
+        def first_iter(c):
+            p = cmp_parts(c)
+            if not p or not cnt:
+                return 0
+            op, l, r = p
+            for a, b in ((l, r), (r, l)):
+                if isinstance(a, dict) and a.get("k") == "ref" and a.get("id") == cnt[0]["id"] and isinstance(b, dict) and b.get("k") == "lit" and b.get("v") == "1":
+                    return {"==": 1, "!=": -1}.get(op, 1 if (op == "<=" and a is l) or (op == ">=" and a is r) else 0)
+            return 0
+        for s in stores:
+            if guard_truth(g.get(id(s), ()), first_iter, body) is True:
+                ctx.ok("store_results(F) in the first iteration: F ran under the caller's assumptions only", fn, s)
+            else:
+                ctx.bad("run() publishes the invariants of a forward pass REFINED with the backward preconditions (use_refined_invariants): "
+                        "they hold only for the executions that can still fail, so the checker reports UNREACHABLE for an assertion that "
+                        "executions reach (entry -> bt/bf -> join: assume(y>=1); assert(x>=1) is reached with x = 1 and reported unreachable)",
+                        fn, s, sig="fb-refined-published:%s" % ("opt-in" if guard_truth(g.get(id(s), ()), lambda c: 1 if is_call(strip(c), name="get_use_refined_invariants") else 0, body) is True else "not-opt-in"))
+
+
+RULES += [r10_published_invariants]
